@@ -31,6 +31,9 @@ func TestReplay(t *testing.T) {
 	if iters > 1 {
 		wd = 2 * time.Second
 	}
+	if os.Getenv("VX_STEER") == "1" {
+		wd = 8 * time.Second
+	}
 	for it := 0; it < iters; it++ {
 		if err := vx.Load(path); err != nil {
 			t.Fatal(err)
@@ -51,6 +54,9 @@ func TestReplay(t *testing.T) {
 					fmt.Printf("VX-PANIC-DETAIL %v\n", r)
 				}
 			}()
+			if os.Getenv("VX_STEER") == "1" {
+				vx.SteerStart() // this goroutine is "0" of the recorded schedule
+			}
 			fn()
 			fmt.Println("VX-DONE")
 		}()
